@@ -147,6 +147,10 @@ func runC11(c *Ctx) {
 		}
 		s.Def(3, arch, 0xFF10, []FieldDef{{1, 1, 2}, {9, 0, 7}}, nil)
 		s.Data(3, []byte{5})
+		// a known message that ends in fields the profile does not list: they belong to the record all the same
+		s.Def(4, arch, 20, []FieldDef{{253, 4, 0x86}, {3, 1, 2}, {200, 3, 0x0D}, {201, 2, 0x84}}, nil)
+		s.Data(4, append(append(wire(u32le(0x39100030), arch), 120), 1, 2, 3, 4, 5))
+		s.Data(4, append(append(wire(u32le(0x39100031), arch), 121), 6, 7, 8, 9, 10))
 		s.Data(1, append(wire(u32le(0x39100020), arch), wire(u16le(9), arch)...))
 		streams = append([][]byte{s.Bytes()}, streams...)
 		pool = append([][]byte{s.Bytes()}, pool...)
